@@ -478,6 +478,20 @@ def run_func(f, rec):
     return ("e", type(e).__name__)
 
 
+def _engine_accepts(formula):
+  """codebuilder.make_formula_body turned the formula into a function body (not into a syntax-error stub)."""
+  try:
+    import codebuilder
+    t = codebuilder.make_formula_body(formula, None).get_text()
+    return "raise SyntaxError" not in t and "raise IndentationError" not in t and "raise TabError" not in t
+  except Exception:
+    return False
+
+
+SIG_LAZY_UNBOUND = ("a local name read inside a lazily evaluated IF argument before it is assigned raises NameError (free "
+                    "variable of the wrapping lambda) where the formula's text raises UnboundLocalError")
+
+
 def classify(formula, what):
   """Signature of a failure: one of the known classes — decided on the INPUT (and, for the classes
   defined by an escaping exception, on the exception class named in `what`) — or `what` itself."""
@@ -489,7 +503,12 @@ def classify(formula, what):
   try:
     ast.parse(text)
   except SyntaxError:
-    return what          # an INVALID formula: every failure is a new finding
+    # an INVALID formula: every failure is a new finding - except the recorded lone-CR class in its exact shape: the
+    # ENGINE's own parser accepted the formula (make_formula_body returned a transformed body, not a stub) and the
+    # module then fails to compile because the lines after the lone CR were not indented
+    if re.search(r"\r(?!\n)", formula) and "does not compile" in what and _engine_accepts(formula):
+      return SIG_CR
+    return what
   except (RecursionError, MemoryError):
     return SIG_DEEP if ("RecursionError" in what or "MemoryError" in what) else what
   except ValueError:
@@ -590,7 +609,8 @@ def function_level(ck, instr, formula, default, indent, model, with_oracle=True)
               want = run_func(o.func, recobj)
               got = run_func(T.__dict__["J"], recobj)
               if repr(want) != repr(got) and not _same_kind(want, got):
-                ck.violation("valid formula does not evaluate as its text", "formula %r: expected %r got %r" % (
+                lazy = (want == ("e", "UnboundLocalError") and got == ("e", "NameError") and "IF(" in formula)
+                ck.violation(SIG_LAZY_UNBOUND if lazy else "valid formula does not evaluate as its text", "formula %r: expected %r got %r" % (
                   formula[:120], want, got), {"level": "function", "formula": formula, "indent": indent})
                 break
             ck.count("valid formulas evaluated against the oracle")
